@@ -137,7 +137,10 @@ def _axes(name, n, **kw):
     return [sym_real(f"{name}{'xyz'[a]}", **kw) for a in range(n)]
 
 
-def _lorentz(c, inp, dt, tag="", classes="AAA", uniform=False, orientation=None):
+def _lorentz(c, inp, dt, tag="", classes="AAA", uniform=False, orientation=None, assume_resolved=True):
+    """assume_resolved=False: the resonances are NOT assumed to be resolved (omega_0 dt < 2); the caller then
+    judges the code's own acceptance gate: it may raise only when an active axis is unresolved, and what it
+    accepts must satisfy the Jury conditions"""
     import fdtdx.dispersion as D
 
     n = 1 if uniform else 3
@@ -145,7 +148,8 @@ def _lorentz(c, inp, dt, tag="", classes="AAA", uniform=False, orientation=None)
     g = _axes(f"{tag}gamma", n, lo=0)
     de = _axes(f"{tag}deps", n)
     for a in range(n):
-        c.assume((w0[a] * dt < 2).z)
+        if assume_resolved:
+            c.assume((w0[a] * dt < 2).z)
         inp.scalar(f"{tag}w0{a}", w0[a])
         inp.scalar(f"{tag}gamma{a}", g[a])
         inp.scalar(f"{tag}deps{a}", de[a])
@@ -165,7 +169,19 @@ def _lorentz(c, inp, dt, tag="", classes="AAA", uniform=False, orientation=None)
     def den(ax, om):
         return (w0[ax] * w0[ax] - om * om) - 1j * (g[ax] * om)
 
-    return _P(pole, lambda ax, om: (de[ax] * w0[ax] * w0[ax]) / den(ax, om), lambda ax, om: [_abs2(den(ax, om))], dict(kind="lorentz"))
+    P = _P(pole, lambda ax, om: (de[ax] * w0[ax] * w0[ax]) / den(ax, om), lambda ax, om: [_abs2(den(ax, om))], dict(kind="lorentz"))
+    # documented rejection rule of the coefficient functions: some ACTIVE axis (strength != 0) has omega_0 dt >= 2
+    def unresolved_active():
+        res = False
+        for a in range(n):
+            if classes[a] == "A":
+                res = A._vor(res, A._tobool(w0[a] * dt >= 2))
+        return res
+
+    P.unresolved_active = unresolved_active
+    P.axis_resolved = lambda a: A._tobool(w0[min(a, n - 1)] * dt < 2)
+    P.axis_class = lambda a: classes[min(a, n - 1)]
+    return P
 
 
 def _drude(c, inp, dt, tag="", classes="AAA", uniform=False, orientation=None):
@@ -323,11 +339,11 @@ def _common(c, inp):
     return dt, om
 
 
-def _stability(c, name, c1, c2):
+def _stability(c, name, c1, c2, extra_hyps=()):
     """Jury conditions for the recurrence p' = c1 p + c2 p_prev (together with the task `jury_theorem`
     they give: no root of z^2 - c1 z - c2 lies outside the unit circle)"""
-    c.prove(f"{name}/jury:|c2|<=1", A._vand(c2 >= -1, c2 <= 1))
-    c.prove(f"{name}/jury:|c1|<=1-c2", A._vand(c1 <= 1 - c2, -c1 <= 1 - c2))
+    c.prove(f"{name}/jury:|c2|<=1", A._vand(c2 >= -1, c2 <= 1), extra_hyps=extra_hyps)
+    c.prove(f"{name}/jury:|c1|<=1-c2", A._vand(c1 <= 1 - c2, -c1 <= 1 - c2), extra_hyps=extra_hyps)
 
 
 def _jury_theorem(c, inp):
@@ -370,11 +386,21 @@ def _per_axis(kind, classes, variant):
 
         dt, om = _common(c, inp)
         uniform = variant == "scalar" or kind == "critical_point"
-        P = _KINDS[kind](c, inp, dt, classes=classes, uniform=uniform)
+        P = _KINDS[kind](c, inp, dt, classes=classes, uniform=uniform, **({"assume_resolved": False} if kind == "lorentz" else {}))
         inp.note("case", dict(kind=kind, classes=classes, variant=variant))
         c.cover("pre")
         fn = {"per_axis": D.compute_pole_coefficients_per_axis, "scalar": D.compute_pole_coefficients, "tensor": D.compute_pole_coefficients_tensor}[variant]
-        c1, c2, c3, c4 = fn((P.pole,), dt)
+        if kind == "lorentz":
+            # the acceptance gate is part of the contract ("media that placement accepts ... do not grow", C36):
+            # a raise must be the documented one, and everything accepted must pass the Jury obligations below
+            try:
+                c1, c2, c3, c4 = fn((P.pole,), dt)
+            except ValueError:
+                c.prove("gate:raises_only_for_an_unresolved_active_axis", P.unresolved_active())
+                return
+            c.prove("gate:accepts_only_resolved_active_axes", A._vnot(P.unresolved_active()) if P.unresolved_active() is not False else True)
+        else:
+            c1, c2, c3, c4 = fn((P.pole,), dt)
         shapes = {"per_axis": ((1, 3),) * 4, "scalar": ((1,),) * 4, "tensor": ((1, 3), (1, 3), (1, 9), (1, 9))}[variant]
         c.prove("shapes", tuple(x.shape for x in (c1, c2, c3, c4)) == shapes)
         if kind in ("lorentz", "drude"):
@@ -388,7 +414,15 @@ def _per_axis(kind, classes, variant):
                 c.prove(f"axis{ax}/jury:same_coefficients_as_an_earlier_axis", True)
                 continue
             seen.add(key)
-            _stability(c, f"axis{ax}", c1[i], c2[i])
+            if kind == "lorentz" and P.axis_class(ax) == "I":
+                # an axis switched off by a literally zero strength is exempt from the gate (documented): it is
+                # inert - no coupling to the field, its polarization stays 0 - so its roots do not matter; the
+                # Jury conditions are still proved for it where its resonance happens to be resolved
+                j = i if variant != "tensor" else (0, 4 * ax)
+                c.prove(f"axis{ax}/inactive_axis_is_inert(c3==c4==0)", A._vand(A.v_eq(c3[j], 0), A.v_eq(c4[j], 0)))
+                _stability(c, f"axis{ax}", c1[i], c2[i], extra_hyps=[P.axis_resolved(ax)])
+            else:
+                _stability(c, f"axis{ax}", c1[i], c2[i])
         # inverse mapping
         if variant == "scalar":
             _split_inactive([(c1[0], c3[0], c4[0])])
@@ -645,6 +679,24 @@ def replay(key, obligation, witness):
 
     dt, om = val("dt", 0.5), val("omega", 0.7)
     details = []
+    if kind == "lorentz" and ("gate:" in obligation or "jury:" in obligation):
+        # acceptance gate on the real code: one ACTIVE axis unresolved (omega_0 dt = 2.5) must be rejected by every
+        # coefficient function; whatever is accepted must have its recurrence roots in the closed unit disk
+        for fname in ("compute_pole_coefficients_per_axis", "compute_pole_coefficients_tensor"):
+            for bad_ax in range(3):
+                w0 = [0.3 / 0.5] * 3
+                w0[bad_ax] = 2.5 / 0.5
+                pole = D.LorentzPole(resonance_frequency=tuple(w0), damping=(0.02, 0.02, 0.02), delta_epsilon=(0.5, 0.5, 0.5))
+                try:
+                    c1, c2, _c3, _c4 = getattr(D, fname)((pole,), 0.5)
+                except ValueError:
+                    details.append(f"{fname}: omega_0*dt = 2.5 on active axis {bad_ax}: rejected (documented)")
+                    continue
+                roots = np.roots([1.0, -c1[0, bad_ax], -c2[0, bad_ax]])
+                r = float(np.max(np.abs(roots)))
+                details.append(f"{fname}: omega_0*dt = 2.5 on active axis {bad_ax}: ACCEPTED, c1={c1[0, bad_ax]:.4g}, max|root|={r:.6f}")
+                if r > 1 + 1e-9:
+                    return True, "the real code accepts a passive pole whose recurrence has a root outside the unit circle:\n" + "\n".join(details)
     for attempt in range(6):
         rng = np.random.default_rng(attempt)
         if attempt:
